@@ -19,14 +19,11 @@ EXPLANATION = ("theorems (all signatures, all calls with pairwise distinct keys,
                "distinct-keys hypothesis is shown necessary. Correspondence: compiled functions vs the same-signature "
                "pure-Python functions under CPython (property oracle) vs the extracted model (tie: bound values and WHICH "
                "error the generated code raises; bind_py's error kind is also tied to CPython's message). "
-               "__Pyx_ParseKeywordDictToDict (kwds dict, wrapper with a used **kwargs) is proved equal to the reference loop "
-               "(pop-loop characterisation + exact duplicate test), so the binding theorem holds with no obligation for every "
-               "signature whose body uses **kwargs under all four conventions (C24_bind_eq_starstar). "
-               "partial: for wrappers WITHOUT a used **kwargs that have named parameters and are entered with a kwds *dict* "
-               "(def f(*args, k=..), tp_init/tp_call, CYTHON_VECTORCALL=0) the theorem is proved only up to one explicit "
-               "obligation on __Pyx_ParseKeywordDict (its counting early-exit agrees with the reference loop up to the error "
-               "kind), which is tested, not proved; its error side (duplicate test exact, RejectUnknownKeyword never falls "
-               "through) is proved; the call-path plumbing of CythonFunction.c/CPython (vectorcall -> wrapper, functools.partial, "
+               "both kwds-dict loops are proved equal to the reference loop up to the error kind: __Pyx_ParseKeywordDictToDict "
+               "(pop-loop characterisation + exact duplicate test) and __Pyx_ParseKeywordDict (its counting early exit "
+               "'extracted < nkw' by a pigeonhole argument: distinct names hit by keys are at most as many as the keys, and "
+               "exactly as many iff every key matches a name at or after 'first'); hence C24_bind_eq, the FULL statement for "
+               "all four conventions with no obligation left. partial only in what is modelled: the call-path plumbing of CythonFunction.c/CPython (vectorcall -> wrapper, functools.partial, "
                "method binding) is only tested.")
 TRUSTED = ["CPython's callers hand a vectorcall callee a kwnames tuple of pairwise distinct str keys (PEP 590; "
            "_PyStack_UnpackDict raises TypeError for non-str keys) and dict keys are pairwise distinct",
